@@ -2,6 +2,10 @@ package main
 
 import (
 	"fmt"
+	"math/rand"
+	"os"
+	"os/exec"
+	"path/filepath"
 	"strconv"
 	"strings"
 
@@ -28,8 +32,148 @@ type enumEntry struct {
 // filled by zz_enums_gen.go (regenerated from /repo by harness/cmd/extract on every run)
 var enumRegistry []enumEntry
 
+// genC19Generated: the same round trip on enums of a freshly GENERATED dialect (the template of
+// pkg/conversion, not the checked-in files): a package is generated from XML by the real
+// generator, compiled with a probe, and every value is parsed into a fresh variable and into a
+// variable that already holds other bits.
+func genC19Generated(o *hx.Out, r *rand.Rand) {
+	exe, _ := os.Executable()
+	hroot := filepath.Dir(filepath.Dir(exe))
+	gdir := filepath.Join(hroot, "gen19")
+	os.RemoveAll(gdir)
+	os.MkdirAll(gdir, 0o755) //nolint:errcheck
+	g := &c18Gen{r: r, usedMsg: map[string]bool{}, usedEnum: map[string]bool{}, usedEnt: map[string]bool{}, nextID: 1}
+	f := xFile{addr: "c19_Gen.xml", version: "3"}
+	for i := 0; i < 6; i++ {
+		e := g.enum()
+		e.bitmask = i%2 == 0
+		if i == 4 { // a flag above the number of entries
+			e.entries = append(e.entries, xEntry{e.name + "_HIGH", "2**40"})
+		}
+		f.enums = append(f.enums, e)
+	}
+	f.msgs = []xMsg{{name: "C19_PROBE", id: 1, fields: []xField{{typ: "uint8_t", name: "x"}}}}
+	os.WriteFile(filepath.Join(gdir, f.addr), []byte(xmlOf(f)), 0o644) //nolint:errcheck
+	if err := convertIn(gdir, f.addr); err != nil {
+		o.Add("generated enums", "GENERATOR-FAILED "+err.Error(), "expect", "ok", "generated enums")
+		return
+	}
+	pkg := pkgNameOf(f.addr)
+	var pb strings.Builder
+	pb.WriteString("package main\n\nimport (\n\t\"fmt\"\n\t" + pkg + " \"verifharness/gen19/" + pkg + "\"\n)\n\nfunc main() {\n")
+	type probeCase struct {
+		key string
+		v   uint64
+	}
+	var cases []probeCase
+	for _, e := range f.enums {
+		key := "gen." + e.name
+		var ls, vs []string
+		var vals []uint64
+		for _, en := range e.entries {
+			// the value as the model of the generator reads it (C18); here: as written by enumValue
+			v := c19ParseValue(en.value)
+			ls = append(ls, u(v)+"="+hx.HexS(en.name))
+			vs = append(vs, hx.HexS(en.name)+"="+u(v))
+			vals = append(vals, v)
+		}
+		o.Add("edef", "ok", "edef", key, b2s(e.bitmask), "64", strings.Join(ls, ","), strings.Join(vs, ","))
+		try := append([]uint64{0}, vals...)
+		if e.bitmask {
+			var all uint64
+			for _, v := range vals {
+				if v != 0 && v&(v-1) == 0 {
+					all |= v
+				}
+			}
+			try = append(try, all)
+			for k := 0; k < 4; k++ {
+				var c uint64
+				for _, v := range vals {
+					if v != 0 && v&(v-1) == 0 && r.Intn(2) == 0 {
+						c |= v
+					}
+				}
+				try = append(try, c)
+			}
+		} else {
+			try = append(try, 12345678901234567, 1<<63, 1<<64-1)
+		}
+		for _, v := range try {
+			cases = append(cases, probeCase{key, v})
+			fmt.Fprintf(&pb, "\t{\n\t\tv := %s.%s(%d)\n\t\ttxt, _ := v.MarshalText()\n\t\tvar fresh %s.%s\n\t\terr1 := fresh.UnmarshalText(txt)\n\t\treused := %s.%s(0xAAAAAAAAAAAAAAAA)\n\t\terr2 := reused.UnmarshalText(txt)\n\t\tfmt.Printf(\"%%x %%d %%v %%d %%v\\n\", txt, uint64(fresh), err1 == nil, uint64(reused), err2 == nil)\n\t}\n",
+				pkg, e.name, v, pkg, e.name, pkg, e.name)
+		}
+	}
+	pb.WriteString("}\n")
+	os.MkdirAll(filepath.Join(gdir, "probe"), 0o755)                                  //nolint:errcheck
+	os.WriteFile(filepath.Join(gdir, "probe", "main.go"), []byte(pb.String()), 0o644) //nolint:errcheck
+	cmd := exec.Command("go", "build", "-tags", "verif", "-o", filepath.Join(gdir, "probe.bin"), "./gen19/probe")
+	cmd.Dir = hroot
+	bout, berr := cmd.CombinedOutput()
+	var lines []string
+	fail := ""
+	if berr != nil {
+		fail = "BUILD-FAILED " + strings.Join(strings.Fields(string(bout)), " ")
+	} else {
+		out, err := exec.Command(filepath.Join(gdir, "probe.bin")).CombinedOutput()
+		if err != nil {
+			fail = "PROBE-FAILED " + strings.Join(strings.Fields(string(out)), " ")
+		}
+		lines = strings.Split(strings.TrimSpace(string(out)), "\n")
+	}
+	os.Remove(filepath.Join(gdir, "probe.bin"))
+	for i, c := range cases {
+		impl := fail
+		if impl == "" {
+			impl = "MISSING"
+			if i < len(lines) {
+				fl := strings.Fields(lines[i])
+				if len(fl) == 5 {
+					txt := fl[0]
+					if txt == "" {
+						txt = "-"
+					}
+					switch {
+					case fl[2] != "true" || fl[4] != "true":
+						impl = txt + " -> err"
+					case fl[1] != fl[3]:
+						impl = txt + " -> " + fl[1] + " BUT-INTO-A-USED-VARIABLE " + fl[3]
+					default:
+						impl = txt + " -> " + fl[1]
+					}
+				} else if len(fl) == 4 { // empty text
+					impl = "- -> err"
+				}
+			}
+		}
+		if len(impl) > 1500 {
+			impl = impl[:1500]
+		}
+		o.Add("generated enum", impl, "ert", c.key, u(c.v))
+	}
+}
+
+// c19ParseValue reads the value syntaxes the harness itself writes (decimal, 0x, 0b, 2**k).
+func c19ParseValue(s string) uint64 {
+	switch {
+	case strings.HasPrefix(s, "0x"):
+		v, _ := strconv.ParseUint(s[2:], 16, 64)
+		return v
+	case strings.HasPrefix(s, "0b"):
+		v, _ := strconv.ParseUint(s[2:], 2, 64)
+		return v
+	case strings.HasPrefix(s, "2**"):
+		k, _ := strconv.Atoi(s[3:])
+		return 1 << uint(k)
+	}
+	v, _ := strconv.ParseUint(s, 10, 64)
+	return v
+}
+
 func genC19(o *hx.Out, tier string) {
 	r := hx.NewRand(19)
+	defer genC19Generated(o, hx.NewRand(1919))
 	if len(enumRegistry) == 0 {
 		panic("enum registry is empty: harness/cmd/extract did not generate zz_enums_gen.go")
 	}
